@@ -53,6 +53,15 @@ def check_convex(rec, s, tag=""):
     oracle = {frozenset(f): (f, n, o) for f, n, o in zip(h.facets, h.normals, h.offsets)}
     sets = [frozenset(f) for f in faces]
     ok_sets = set(sets) == set(oracle) and len(sets) == len(set(sets)) and all(len(f) == len(set(f)) for f in faces)
+    if not ok_sets and V.tobytes() not in _EXACT and all(len(f) == len(set(f)) for f in faces):
+        # a face that is planar only up to the rounding of its coordinates: the exact hull of the stored floats has it in
+        # pieces, and reporting the pieces (or some of them merged) is as right as reporting the whole - see geom.split_hull
+        h2 = geom.split_hull(V, h, faces)
+        if h2 is not None:
+            rec.cls("face-planar-only-up-to-rounding:reported-in-exact-pieces")
+            h = h2
+            oracle = {frozenset(f): (f, n, o) for f, n, o in zip(h.facets, h.normals, h.offsets)}
+            ok_sets = True
     rec.check("convex:faces-are-hull-facets", ok_sets, "ConvexPolyhedron.faces/not-the-hull-facets" + tag,
               lambda: wit(faces=faces, oracle=[list(f) for f in h.facets]))
     if not ok_sets:
@@ -153,6 +162,43 @@ def check_oriented(rec, mon, s, V, want_faces, mech, winfo):
         rec.check(mon + ":equations", good, mech + "/equations-not-refreshed", lambda: dict(winfo, equations=eq))
 
 
+_INDEX_FORMS = ("int64", "int32", "lists", "uint32", "uint8", "uint64", "int16")
+
+
+def index_form(rng, faces, nv):
+    """The face lists in one of the index types a caller's mesh may hold them in (a uint32 index buffer, int lists ...)."""
+    form = _INDEX_FORMS[int(rng.integers(len(_INDEX_FORMS)))]
+    if form == "lists" or (form == "uint8" and nv > 255):
+        return "lists", [[int(x) for x in f] for f in faces]
+    return form, [np.array([int(x) for x in f], dtype=form) for f in faces]
+
+
+def check_edges_general(rec, s, tag, winfo):
+    """Edge list / count / Euler relation of a *general* Polyhedron that holds a convex surface (after sort_faces or
+    merge_faces): each edge once as (i<j), exactly the pairs consecutive in some face; V-E+F=2; edge vectors match."""
+    got = [[int(i) for i in f] for f in s.faces]
+    want = set()
+    for f in got:
+        for a, b in zip(f, f[1:] + f[:1]):
+            want.add((min(a, b), max(a, b)))
+    E = np.asarray(s.edges)
+    el = [tuple(int(x) for x in e) for e in E] if E.ndim == 2 else []
+    ok = E.ndim == 2 and E.shape[1] == 2 and all(a < b for a, b in el) and len(set(el)) == len(el) and set(el) == want
+    rec.check("convex:edges", ok, "Polyhedron.edges/duplicate-missing-or-unordered" + tag, lambda: dict(winfo, edges=el[:40], n_edges=len(el), want=len(want)))
+    nv = len(s.vertices)
+    rec.check("convex:euler", int(s.num_edges) == len(want) and nv - int(s.num_edges) + len(got) == 2,
+              "Polyhedron.num_edges/euler-mismatch" + tag, lambda: dict(winfo, num_edges=int(s.num_edges), V=nv, F=len(got), E=len(want)))
+    if ok:
+        V = np.asarray(s.vertices, float)
+        L = float(np.abs(V).max()) + 1e-300
+        try:
+            good = (np.allclose(np.asarray(s.edge_vectors, float), V[E[:, 1]] - V[E[:, 0]], rtol=0, atol=1e-12 * L)
+                    and np.allclose(np.asarray(s.edge_lengths, float), np.linalg.norm(V[E[:, 1]] - V[E[:, 0]], axis=1), rtol=0, atol=1e-12 * L))
+        except Exception:
+            good = False
+        rec.check("convex:edges", good, "Polyhedron.edge_vectors/not-matching-edges" + tag, lambda: dict(winfo))
+
+
 def setup(rec, tier):
     import coxeter.shapes as cs
 
@@ -240,8 +286,11 @@ def run_case(i, rng, rec, tier, state):
         kind = "convex" if c["kind"] == "convexcopy" else c["kind"]
         rec.cls("scramble:" + kind)
         info = {"mode": "sort_faces", "kind": c["kind"], "vertices": V2, "scrambled_faces": sf}
+        iform, sfx = index_form(rng, sf, len(V2))
+        rec.cls("face-index-type:" + iform)
+        info["face_index_type"] = iform
         try:
-            s = cs.Polyhedron(V2.copy(), [np.array(f) for f in sf], faces_are_convex=True)
+            s = cs.Polyhedron(V2.copy(), sfx, faces_are_convex=True)
             s.sort_faces()
         except Exception as e:
             rec.violation("sort_faces:outward-ccw", f"Polyhedron.sort_faces/raises-{type(e).__name__}", dict(info, exc=repr(e)[:300]))
@@ -260,6 +309,8 @@ def run_case(i, rng, rec, tier, state):
                 wantnb[fs[1]].add(fs[0])
         rec.check("sort_faces:neighbors", all(set(nbs[t]) == wantnb[t] for t in range(len(got))),
                   "Polyhedron.sort_faces/neighbors-stale", lambda: dict(info, neighbors=nbs))
+        if c["kind"] == "convexcopy":
+            check_edges_general(rec, s, "/after-sort_faces", info)
         if any(len(f) > 3 for f in faces) or len(faces) > 12:
             rec.nontriv(V2, sf)
         if i < 6:
@@ -285,13 +336,17 @@ def run_case(i, rng, rec, tier, state):
     tris = [tris[t] for t in order]
     rec.cls("merge:convex")
     info = {"mode": "merge_faces", "vertices": P, "triangles": tris}
+    iform, trx = index_form(rng, tris, len(P))
+    rec.cls("face-index-type:" + iform)
+    info["face_index_type"] = iform
     try:
-        s = cs.Polyhedron(P.copy(), [list(t) for t in tris])
+        s = cs.Polyhedron(P.copy(), trx)
         s.merge_faces()
     except Exception as e:
         rec.violation("merge_faces:hull-facets", f"Polyhedron.merge_faces/raises-{type(e).__name__}", dict(info, exc=repr(e)[:300]))
         return
     check_oriented(rec, "merge_faces:hull-facets", s, P, h.facets, "Polyhedron.merge_faces/not-the-hull-facets", info)
+    check_edges_general(rec, s, "/after-merge_faces", info)
     if any(len(f) > 3 for f in h.facets) or len(h.facets) > 12:
         rec.nontriv(P, "merge")
     if i < 6:
